@@ -30,8 +30,12 @@ impl SelectState {
         }
     }
 
+    /// called when a repeated request is echoed: only a retransmission that directly follows the
+    /// SELECT (or its previous retransmission) is a repeat of the SELECT itself
     pub(crate) fn update_frame_id(&mut self, new_frame_id: u32) {
-        self.frame_id = new_frame_id;
+        if self.frame_id.wrapping_add(1) == new_frame_id {
+            self.frame_id = new_frame_id;
+        }
     }
 
     pub(crate) fn match_operate(
